@@ -36,6 +36,14 @@ def handle (op : String) (args : List String) : Option String :=
       | .ok ts => pure (" ".intercalate (ts.map fun p => renderTok p.1 p.2))
       | .err => pure "err"
       | .panic => pure "panic"
+  | "lex", [spec, ac, force, h] => do
+      let (o, i, multi) ← parseSpec spec
+      let b ← ofHex h
+      let f : Option Nat := if force == "-" then none else force.toNat?
+      match lexFrom i (ac == "1") f (initial o b multi) with
+      | .ok ts => pure (" ".intercalate (ts.map fun p => renderTok p.1 p.2))
+      | .err => pure "err"
+      | .panic => pure "panic"
   | _, _ => none
 
 end Driver.C14
